@@ -13,11 +13,14 @@ def op(kind, *args):
     return [kind] + list(args)
 
 
-def tape(server, sv, cauth, ops, resumed=False, ems=0, ticket=None):
+def tape(server, sv, cauth, ops, resumed=False, ems=0, ticket=None, cut=None):
     """ticket (client victim only): 'accept' / 'decline' = the client's session holds an id AND a ticket and the server echoes the id / answers with a fresh id
     (5th byte 4 selects the mode, the low bit of the seed accepts)"""
     kind = 4 if ticket else (0 if resumed else 1)
     seed_lo = 7 if ticket != 'decline' else 6
+    if cut:   # (cut point 1 after-SHD / 2 after-NST / 3 after-NST+CCS, ended by alert?): 5th byte 3, cut = 1 + (seed >> 1) % 3, alert = seed & 1
+        kind = 3
+        seed_lo = {(1, 0): 0, (1, 1): 1, (2, 0): 2, (2, 1): 3, (3, 0): 4, (3, 1): 5}[cut]
     b = [1 if server else 0, sv, 1 if cauth else 0, ems, kind, 0, seed_lo, 1 if len(ops) == 1 else 6 if len(ops) == 2 else 0]
     for o in ops:
         b += o
@@ -78,6 +81,16 @@ CASES = {
     'cli-full-zero-secret-resumption': tape(False, RSA_GCM, False, [op(O_SECRET, 0)]),
     'srv-resumed-zero-secret': tape(True, RSA_GCM, False, [op(O_SECRET, 0)], resumed=True),
     'srv-resumed-random-secret': tape(True, ECDHE_CBC256, False, [op(O_SECRET, 1)], resumed=True),
+    # history: the session id went through a handshake that was cut before the server's Finished (ticket received, never validated)
+    'cli-cut-after-nst-legal': tape(False, RSA_GCM, False, [], cut=(2, 0)),
+    'cli-cut-after-nst-ccs-alert-legal': tape(False, ECDHE_GCM, False, [], cut=(3, 1)),
+    'cli-cut-after-shd-legal': tape(False, RSA_CBC_11, True, [], cut=(1, 0)),
+    'cli-cut-after-nst-zero-secret-resumption': tape(False, RSA_GCM, False, [op(O_SECRET, 0)], cut=(2, 0)),
+    'cli-cut-after-nst-zero-secret-resumption-empty-sid': tape(False, RSA_CBC256, False, [op(O_SECRET, 2)], cut=(2, 0)),
+    'cli-cut-after-nst-alert-zero-secret-resumption': tape(False, ECDHE_GCM, False, [op(O_SECRET, 2)], cut=(2, 1)),
+    'cli-cut-after-nst-ccs-zero-secret-resumption-tls11': tape(False, RSA_CBC_11, False, [op(O_SECRET, 0)], cut=(3, 0)),
+    'cli-cut-after-nst-random-secret-resumption': tape(False, RSA_GCM, False, [op(O_SECRET, 1)], cut=(2, 0)),
+    'cli-id+ticket-declined-zero-secret-resumption-empty-sid': tape(False, RSA_GCM, False, [op(O_SECRET, 2)], ticket='decline'),
     'cli-resumed-abbreviated-when-full-expected': tape(False, RSA_GCM, False, [op(O_MODE, 2)]),
 }
 
